@@ -1,0 +1,109 @@
+//go:build verif
+
+// Verification hooks for properties C08, C09 and C10 (hook ordering, hook failures, run
+// number/timestamps). Add-only; compiled only with -tags verif. Nothing here changes the
+// behaviour of the package: every function either builds an Environment exactly as the package's
+// own tests do, reads unexported state, or calls an existing unexported function.
+
+package environment
+
+import (
+	"sort"
+	"time"
+
+	"github.com/AliceO2Group/Control/common/event"
+	"github.com/AliceO2Group/Control/common/utils/uid"
+	"github.com/AliceO2Group/Control/core/task"
+	"github.com/AliceO2Group/Control/core/workflow"
+	"github.com/AliceO2Group/Control/core/workflow/callable"
+)
+
+// VerifC08NewEnvironment is newEnvironment plus a workflow tree and an initial state, the way
+// hooks_test.go prepares its environments (no environment manager, no task manager).
+func VerifC08NewEnvironment(id uid.ID, userVars map[string]string, wf workflow.Role, state string) (*Environment, error) {
+	env, err := newEnvironment(userVars, id)
+	if err != nil {
+		return nil, err
+	}
+	env.workflow = wf
+	workflow.LinkChildrenToParents(env.workflow)
+	if state != "" {
+		env.Sm.SetState(state)
+	}
+	return env, nil
+}
+
+// VerifC08Transition implements the unexported Transition interface with an injectable body
+// (what DummyTransition of hooks_test.go does, with a function instead of a flag).
+type VerifC08Transition struct {
+	Name string
+	Body func(env *Environment) error
+}
+
+func (t VerifC08Transition) eventName() string { return t.Name }
+func (t VerifC08Transition) check() error      { return nil }
+func (t VerifC08Transition) do(env *Environment) error {
+	if t.Body == nil {
+		return nil
+	}
+	return t.Body(env)
+}
+
+// VerifC08SetHookHandler replaces the function that triggers hook tasks.
+func (env *Environment) VerifC08SetHookHandler(f func(hooks task.Tasks) error) { env.hookHandlerF = f }
+
+// VerifC08Pending describes one entry of callsPendingAwait.
+type VerifC08Pending struct {
+	Await     string
+	Weight    int
+	Func      string
+	Call      *callable.Call
+	Cancelled bool
+}
+
+// VerifC08PendingAwait returns the content of callsPendingAwait sorted by await name, weight and
+// position. Must not be called while a transition is running (no lock protects the map).
+func (env *Environment) VerifC08PendingAwait() []VerifC08Pending {
+	out := []VerifC08Pending{}
+	names := make([]string, 0, len(env.callsPendingAwait))
+	for n := range env.callsPendingAwait {
+		names = append(names, n)
+	}
+	sort.Strings(names)
+	for _, n := range names {
+		m := env.callsPendingAwait[n]
+		for _, w := range m.GetWeights() {
+			for _, c := range m[w] {
+				if c == nil {
+					continue
+				}
+				out = append(out, VerifC08Pending{Await: n, Weight: int(w), Func: c.Func, Call: c, Cancelled: c.VerifC08Cancelled()})
+			}
+		}
+	}
+	return out
+}
+
+// VerifC08CancelPending runs the manager's cancelCallsPendingAwait on this environment.
+func (env *Environment) VerifC08CancelPending() { (&Manager{}).cancelCallsPendingAwait(env) }
+
+// VerifC08HandleAllHooks runs handleAllHooks (all weights of one trigger), as teardown does.
+func (env *Environment) VerifC08HandleAllHooks(trigger string) error {
+	return env.handleAllHooks(env.Workflow(), trigger)
+}
+
+// VerifC08SetState is setState (no callbacks), as the error watcher uses it.
+func (env *Environment) VerifC08SetState(state string) { env.setState(state) }
+
+// VerifC08DeliverEvent hands a device event to the environment's hook-task collector with a
+// blocking send (NotifyEvent drops the event when the collector is not receiving at that very
+// moment, which would make harness runs time-dependent). Returns false if nobody received the
+// event within the given number of milliseconds.
+func (env *Environment) VerifC08DeliverEvent(e event.DeviceEvent, timeoutMs int) bool {
+	select {
+	case env.incomingEvents <- e:
+		return true
+	case <-time.After(time.Duration(timeoutMs) * time.Millisecond):
+		return false
+	}
+}
